@@ -1,2 +1,3 @@
 //! Generators: structure-aware fault operators, texts, ASTs.
 pub mod faults;
+pub mod layout_c04;
